@@ -726,3 +726,53 @@ def c18(run, replay):
     for s in scen[:2] + scen[-3:]:
         run.sample(s)
     run.sample([e for e in trace if e.get("ev") in ("CloserStart", "CloserEnd", "CallEnd", "ChanClosed", "DialStart", "Quiesce")][:14])
+
+
+# --------------------------------------------------------------------------------------------- C13
+PANIC_PAYLOADS = ["string", "error", "nilmap", "nilptr", "custom", "int", "nil", "badError", "badStringer", "index"]
+
+
+@check("C13")
+def c13(run, replay):
+    run.assumptions += [
+        "panic payloads: string, error, nil-map write, nil dereference, custom struct, int, panic(nil), a value whose Error() panics, a value whose "
+        "String() panics, index out of range; call kinds unary / notification / channel-returning / reverse-calling; over ws and http; alone, twice "
+        "concurrently, and among siblings (gated unary, 100 kB result, paced stream on the same connection; unary on another ws connection and over http)",
+        "the server and all clients live in one child process: a crash of the code under test is observed as the death of that process",
+        "sibling behaviour is judged with the C02 / C03 / C07 clauses of Obs.tla on the same trace (reported here as C13)",
+    ]
+    thorough = run.tier == "thorough"
+    wd = run.dir("work")
+    rnd = random.Random(run.seed)
+    run.model_check(wd, "Panic.tla", "Panic.cfg", timeout=600)
+    r = run.tlc(wd, "Panic.tla", "Panic_norecover.cfg", timeout=600, tag="model_runs")
+    if r["violated"] != "Confined":
+        raise vp.ToolFailure("self-test: Panic.tla without recover should violate Confined, got %s" % r["violated"])
+    scen = []
+    for kind in ("unary", "notify", "sub", "reverse"):
+        for payload in PANIC_PAYLOADS:
+            for tr in ("ws", "http"):
+                if tr == "http" and kind in ("sub", "reverse"):
+                    continue
+                if not thorough and rnd.random() > 0.5:
+                    continue
+                scen.append({"sc": "c13.panic", "args": {"kind": kind, "payload": payload, "transport": tr, "siblings": rnd.random() < 0.7,
+                                                         "twice": rnd.random() < 0.4, "procs": 1 if rnd.random() < 0.4 else 0}})
+    # two error replies rendered at the same time while a big response occupies the writer (single P: per-P caches are shared)
+    for payload in ("string", "error", "nilptr"):
+        scen.append({"sc": "c13.panic", "args": {"kind": "unary", "payload": payload, "transport": "ws", "siblings": True, "twice": True, "procs": 1,
+                                                 "p": 0.8, "delay": ["h.resp.pre", "lazy.acquire.pre", "h.ret", "wl.enter"]}})
+    for payload in ("string", "nilmap"):
+        for procs in (1, 0):
+            scen.append({"sc": "c13.panic", "args": {"kind": "unary", "payload": payload, "transport": "ws", "siblings": True, "twice": True,
+                                                     "procs": procs, "blockwriter": True}})
+    trace, viol = run_ws_scenarios(run, wd, scen, "c13", timeout=3000)
+    report_ws(run, trace, viol, "C13", scen, "panic")
+    for v in viol:   # siblings must behave as if the panic had not happened
+        if v[1] in ("C02", "C03", "C07", "C08") and v[2] != "process-crashed":
+            run.violation("panic sibling: %s %s" % (v[1], v[2]), v[2], {"property": "C13", "scenario": scen[v[0] - 1], "clause": v[2], "call": v[3]})
+    run.cov["distinct_nontrivial"] = len(set(json.dumps(s, sort_keys=True) for s in scen))
+    run.cov["rule"] = "call kind x payload x transport x {alone, siblings} x {once, twice}; distinct = distinct descriptions"
+    for s in scen[:3]:
+        run.sample(s)
+    run.sample([e for e in trace if e.get("ev") in ("CallEnd", "ProcessExit")][:10])
